@@ -26,6 +26,7 @@
 #include <gnu_gama/local/acord/acord2.h>
 #include <gnu_gama/local/observation.h>
 #include <gnu_gama/local/language.h>
+#include <gnu_gama/local/test_linearization_visitor.h>
 
 using namespace GNU_gama::local;
 
@@ -49,10 +50,11 @@ static const char* obs_type(Observation* o, std::string& extra) {
 
 int main(int argc, char* argv[]) {
   if (argc < 3) return 2;
-  bool acord = true, solve = false, lindep = false;
+  bool acord = true, solve = false, lindep = false, twice = false;
   for (int i = 3; i < argc; i++) {
     if (!strcmp(argv[i], "noacord")) acord = false;
     if (!strcmp(argv[i], "solve")) solve = true;
+    if (!strcmp(argv[i], "twice")) twice = true;
     if (!strcmp(argv[i], "lindep")) lindep = true;
   }
   set_gama_language(en);
@@ -64,7 +66,8 @@ int main(int argc, char* argv[]) {
     gkf.xml_parse(text.c_str(), text.size(), 1);
     IS->set_algorithm(argv[2]);
     IS->remove_inconsistency();
-    if (acord) { Acord2 a(IS->PD, IS->OD); a.execute(); }
+    if (acord) { Acord2 a(IS->PD, IS->OD); a.execute(); refine_obsdh_reductions(IS); }
+    auto dump = [&]() {
     std::ostringstream pe;
     pe.precision(17);
     IS->project_equations(pe);
@@ -104,6 +107,8 @@ int main(int argc, char* argv[]) {
         std::cout << "\n";
       }
     }
+    };
+    dump();
     std::cout << "MINN " << IS->min_n();
     for (int i = 0; i < IS->min_n(); i++) std::cout << ' ' << IS->min_x_[i];
     std::cout << "\n";
@@ -115,6 +120,12 @@ int main(int argc, char* argv[]) {
       const auto& r = IS->residuals();
       std::cout << "R"; for (int i = 1; i <= r.dim(); i++) std::cout << ' ' << dhex(r(i)); std::cout << "\n";
       std::cout << "VWV " << dhex(IS->trans_VWV()) << " DOF " << IS->degrees_of_freedom() << " M0POST " << dhex(IS->m_0_aposteriori_value()) << "\n";
+    }
+    if (twice) {
+      // the project equations are rebuilt after every change of the configuration: same rows expected
+      IS->update_points();
+      std::cout << "PASS 2\n";
+      dump();
     }
     if (lindep) {
       std::cout << "LINDEP";
